@@ -129,3 +129,10 @@ PROPS["C19"]["selftest_skip_ops"] = ["rmod"]   # a single modular draw is only r
 PROPS["C01"]["custom"] = "check_c01"
 PROPS["C02"]["paths"] = {"quick": 1, "thorough": 7}
 PROPS["C04"]["apalache"] = [dict(spec="apalache/WordLemmas64.tla", inv="Inv")]
+PROPS["C07"]["apalache"] = [dict(spec="apalache/ModLemmas256.tla", inv="Inv"),
+                            dict(spec="apalache/ModLemmas256.tla", inv="AddNoPre", expect_error=True),
+                            dict(spec="apalache/ModLemmas256.tla", inv="HalfNoPre", expect_error=True, tiers=("thorough",))]
+PROPS["C13"]["apalache"] = [dict(spec="apalache/SignedLemmas256.tla", inv="Inv"),
+                            dict(spec="apalache/SignedLemmas256.tla", inv="AddWrongRule", expect_error=True)]
+PROPS["C06"]["apalache"] = [dict(spec="apalache/SignedLemmas256.tla", inv="CmpOK"),
+                            dict(spec="apalache/SignedLemmas256.tla", inv="RawLtWrong", expect_error=True)]
